@@ -1,4 +1,4 @@
-"""C16: manual-reset events v1/v2, auto-reset event (async_pass: see pass harness)."""
+"""C16: manual-reset events v1/v2, auto-reset event (harness sync.cpp) and async_pass (harness pass.cpp)."""
 from .. import core, mt_check
 
 
@@ -14,21 +14,34 @@ def run(tier, seed, verdict):
             n = 2 if quick else 4
             a += [x + ["mode=" + mode, "iters=%d" % it] for x in mt_check.seeds_args(seed + 10 * i, n, [], victims)]
         mt_check.run_mt("C16", "sync", variant, a, verdict, res, timeout=900)
+        # async_pass rendezvous (hook sites 321-326 async_pass, 341-345 cancellable)
+        pn = (4000 if quick else 200000) // (1 if variant.startswith("asan") else 2)
+        pa = [["seed=%d" % (seed * 100 + 70 + i), "iters=%d" % pn, "perturb=1", "victim=%d" % v]
+              for i, v in enumerate((0, 324, 326, 342) if quick else (0, 321, 322, 323, 324, 325, 326, 342, 343))]
+        mt_check.run_mt("C16", "pass", variant, pa, verdict, res, timeout=900)
     st = res.stats
     need = ["event_v1_outcome_woken_by_later_set", "event_v2_outcome_woken_by_later_set",
             "event_v2_outcome_cancelled_done", "event_v2_outcome_stop_lost_race_value",
-            "event_v1_rounds_with_concurrent_reset", "autoreset_values", "autoreset_cancelled_rounds"]
+            "event_v1_rounds_with_concurrent_reset", "autoreset_values", "autoreset_cancelled_rounds",
+            "call_cancelled", "accept_cancelled", "cancel_lost_race", "plain_rendezvous", "try_call_served",
+            "try_accept_served", "idle_try_checked"]
     missing = [k for k in need if not st.get(k)]
-    if missing:
-        raise core.HarnessFailure("event stress observed none of: %s" % missing)
-    outcomes = {k: v for k, v in st.items() if "outcome" in k or k.startswith("autoreset") or "rounds" in k}
+    core.require_observed(verdict, missing, "event stress")
+    PASS = ("call_cancelled", "accept_cancelled", "cancel_lost_race", "plain_rendezvous", "try_call_served",
+            "try_accept_served", "idle_try_checked")
+    outcomes = {k: v for k, v in st.items() if "outcome" in k or k.startswith("autoreset") or "rounds" in k or k in PASS}
     cov = {
-        "evaluations": st.get("event_v1_rounds", 0) + st.get("event_v2_rounds", 0) + st.get("autoreset_rounds", 0),
+        "evaluations": st.get("event_v1_rounds", 0) + st.get("event_v2_rounds", 0) + st.get("autoreset_rounds", 0) +
+        st.get("rounds_total", 0),
         "distinct_nontrivial": sum(1 for v in outcomes.values() if v) + sum(1 for v in res.hooks.values() if v),
         "rule": "each evaluation is one short concurrent history on a fresh event: 1-3 waiters (v2: a third are "
                 "cancelled at a random time), 1-2 setters, optionally a resetting thread; then quiescent checks "
                 "(all waiters complete after a set, none completes without one, reset only affects later waits) and a "
-                "final set(); auto-reset: producer set()/set_done() vs a consuming stream, optionally cancelled. "
+                "final set(); auto-reset: producer set()/set_done() vs a consuming stream, optionally cancelled; async_pass: one "
+                "round per fresh pass - async_call vs async_accept started from two threads in either order or together, a "
+                "stop request on one side at a random time, the survivor served by try_call/try_accept, or a parked side served "
+                "by try_*; payload ids unique; checked: value iff delivered, payload exact, cancelled side leaves the other waiting "
+                "and the argument untouched, try_* fail on an idle pass, completion on the waiter's own scheduler thread. "
                 "distinct_nontrivial counts conservatively the distinct outcome classes observed plus hook sites hit",
         "samples": ["v1 waits=%d (woken by a later set: %d), v2 waits=%d (cancelled: %d, stop lost race: %d), "
                     "auto-reset: %d values for %d set() calls" % (
@@ -46,6 +59,6 @@ def run(tier, seed, verdict):
         "stranded waiters are detected as a wait still pending 30 s after a set() returned",
         "value completions must arrive on the receiver's scheduler thread (single_thread_context); done completions "
         "are delivered where stop was requested",
-        "async_pass is not covered by this run (the pass harness is separate)",
+        "async_pass: one caller and one acceptor at a time (two parked callers terminate by contract); async_throw is not driven",
     ]
     return cov, assume, "exploration"
